@@ -31,7 +31,7 @@ use vh::runner::{no_panic, CaseReport, CaseResult, Ctx, Failure};
 use vh::util::escape;
 use vh::{ensure, fail};
 
-use gen::{ExactCase, FmtCase, Pieces, ReadCase, WriteCase};
+use gen::{ExactCase, FmtCase, Pieces, ReadCase, Stubborn, WriteCase};
 use script::{rfacts, wfacts, REv, RFacts, ScriptedReader, ScriptedWriter, WEv, EK};
 
 const POISON: u8 = 0xEE;
@@ -318,7 +318,7 @@ fn sink_shape(sink: &[u8], data: &[u8]) -> &'static str {
     }
 }
 
-fn judge_write(op: &str, res: tiny_std::Result<()>, w: &ScriptedWriter, data: &[u8], rep: &mut CaseReport) -> Result<(), Failure> {
+fn judge_write(op: &str, res: tiny_std::Result<()>, w: &ScriptedWriter, data: &[u8], prefix_required: bool, rep: &mut CaseReport) -> Result<(), Failure> {
     let f = wfacts(&w.trace);
     match res {
         Ok(()) => {
@@ -339,7 +339,7 @@ fn judge_write(op: &str, res: tiny_std::Result<()>, w: &ScriptedWriter, data: &[
             } else {
                 ensure!(!k.is_eintr(), format!("{op}|eintr-surfaced"), "{op} returned EINTR");
             }
-            ensure!(data.starts_with(&w.sink), format!("{op}|wrong-bytes-on-error|{}", sink_shape(&w.sink, data)), "{op} returned Err({e}): sink = {} is not a prefix of {}", show(&w.sink), show(data));
+            ensure!(!prefix_required || data.starts_with(&w.sink), format!("{op}|wrong-bytes-on-error|{}", sink_shape(&w.sink, data)), "{op} returned Err({e}): sink = {} is not a prefix of {}", show(&w.sink), show(data));
             rep.class_if(!f.fatals.is_empty() && f.accepted_before_first_stop > 0, "error-mid-stream");
             rep.class_if(!f.fatals.is_empty() && f.accepted_before_first_stop == 0, "error-first");
             rep.class_if(f.zero_seen, "wrote-zero");
@@ -361,7 +361,7 @@ pub fn check_write_all(c: &WriteCase) -> CaseResult {
     let mut w = ScriptedWriter::new(&c.script, data.len());
     let res = no_panic(op, || Write::write_all(&mut w, data));
     let res = guard(op, w.abused, res)?;
-    judge_write(op, res, &w, data, &mut rep)?;
+    judge_write(op, res, &w, data, true, &mut rep)?;
     Ok(rep)
 }
 
@@ -408,13 +408,26 @@ pub fn check_write_fmt(c: &FmtCase) -> CaseResult {
             write_literal(&mut w, lit - 1)
         } else if c.template {
             let (a, b, x) = print::template_args(p);
-            Write::write_fmt(&mut w, format_args!("[{}] {:>6}={:#06x}|{}\n", a, b, x, Pieces(p)))
+            if c.stubborn {
+                Write::write_fmt(&mut w, format_args!("[{}] {:>6}={:#06x}|{}\n", a, b, x, Stubborn(p)))
+            } else {
+                Write::write_fmt(&mut w, format_args!("[{}] {:>6}={:#06x}|{}\n", a, b, x, Pieces(p)))
+            }
+        } else if c.stubborn {
+            Write::write_fmt(&mut w, format_args!("{}", Stubborn(p)))
         } else {
             Write::write_fmt(&mut w, format_args!("{}", Pieces(p)))
         }
     });
     let res = guard(op, w.abused, res)?;
-    judge_write(op, res, &w, data, &mut rep)?;
+    // (a formatting impl that keeps writing after an error leaves a gap in the sink: its doing, not the helper's)
+    judge_write(op, res, &w, data, !c.stubborn, &mut rep)?;
+    let had_error_then_success = {
+        let first_err = w.trace.iter().position(|e| matches!(e, WEv::Fatal(_)));
+        matches!(first_err, Some(i) if w.trace[i + 1..].iter().any(|e| matches!(e, WEv::Accept { n, .. } if *n > 0)))
+    };
+    rep.class_if(c.stubborn, "formatting-impl-keeps-writing-after-an-error");
+    rep.class_if(c.stubborn && had_error_then_success, "writer-error-followed-by-accepted-piece");
     rep.class_if(c.template && lit == 0, "template");
     rep.class_if(lit > 0, "argument-free-format-string");
     rep.class_if(w.calls >= 3, "several-write-str-calls");
